@@ -186,6 +186,17 @@ def replay(sim, plan, tx, viol, run_light):
     vb = s2.root.values.to_numpy(dtype=float)
     scale = max(1.0, float(np.nanmax(np.abs(va))))
     if not _close(va, vb, scale, rel=1e-8):
+        # did some (date, ticker) pay spread on trades that net to zero (and hence do not appear in the list)?
+        netted = False
+        if root._bidoffer_set:
+            bo = {}
+            for s in root.members:
+                if not hasattr(s, "capital"):
+                    bo[s.name] = bo.get(s.name, 0) + np.abs(s.bidoffers_paid.to_numpy(dtype=float))
+            for name, b in bo.items():
+                dq = np.diff(np.concatenate([[0.0], a[name]]))
+                if ((np.abs(dq) < 1e-12) & (b > 0)).any():
+                    netted = True
         i = int(np.argmax(np.abs(va - vb)))
-        viol.append({"check": "c18_replay", "detail": "replayed value on row %d is %r, original %r" % (i, vb[i], va[i]), "flags": {"kind": "values"}})
+        viol.append({"check": "c18_replay", "detail": "replayed value on row %d is %r, original %r" % (i, vb[i], va[i]), "flags": {"kind": "values", "netted_spread": netted}})
     return True
